@@ -71,7 +71,7 @@ func newCheckEnv(name string, fc *FuncContract) *checkEnv {
 }
 
 func (e *Engine) newExec(ce *checkEnv) *Exec {
-	x := &Exec{eng: e, ctx: NewCtx(), cur: ce, closures: map[*ssa.MakeClosure]bool{}, matSeq: map[string]*SeqV{}, iteDefs: map[string][3]Term{}}
+	x := &Exec{eng: e, ctx: NewCtx(), cur: ce, closures: map[*ssa.MakeClosure]bool{}, matSeq: map[string]*SeqV{}, ufApps: map[string][][]Term{}, iteDefs: map[string][3]Term{}}
 	return x
 }
 
